@@ -7,7 +7,22 @@ import Driver.Util
 namespace Driver.Parse
 open Mpt Mpt.Parse Mpt.Conf Mpt.Events
 
+/-- one `mpt::config_parser` object (mpt++/parse.cpp) and the stdio stream it holds -/
+structure XP where
+  sect : Nat
+  opt : Nat
+  fmt : Format := {}
+  kind : Kind := .pre
+  opened : Bool := false
+  rest : List UInt8 := []      -- unread part of the stream
+  lineZero : Bool := true      -- `_d.src.line == 0`: nothing read since open/reset
+  curr : Nat := 0              -- `_d.curr` stays in the object between reads (`valid` is reset by mpt_parse_config)
+
 structure State where
+  xp : Option XP := none
+  xfile : Option (List UInt8) := none
+  xtarget : Forest := []
+  xexpect : Option Forest := none
   fmt : Option (List UInt8) := none
   sect : Nat := 0xff
   opt : Nat := 0xff
@@ -192,6 +207,85 @@ def step (s : State) (w : List String) : State × String :=
     let code : Int := if r.code < 0 then r.code else 1
     (s, s!"R {verdict} nest={nest} vals=ok | C {fmtEvents evs} | I code={code} | S {cfgAlts (-2)}")
   | ["p", "end"] => (({} : State), "R ok leaks=0")
+  /- mpt::config_parser -/
+  | ["x", "new", a, b] =>
+    match a.toNat?, b.toNat? with
+    | some a, some b =>
+      if a > 0xffff || b > 0xffff then (s, "bad-op")
+      else ({ s with xp := some { sect := a, opt := b } }, "R ok")
+    | _, _ => (s, "bad-op")
+  | ["x", "fmt", f] =>
+    match s.xp with
+    | none => (s, "bad-op")
+    | some xp =>
+      let fs : Option (Option (List UInt8)) :=
+        if f == "null" then some none
+        else match parseHex f with
+          | some bs => if bs.contains 0 then none else some (some bs)
+          | none => none
+      match fs with
+      | none => (s, "bad-op")
+      | some fo =>
+        let (pf, t) := parseFormat fo
+        match Kind.ofType t with
+        | none => (s, "R refused")
+        | some k => ({ s with xp := some { xp with fmt := pf, kind := k } }, "R ok")
+  | ["x", "file", h] =>
+    match parseHex h with
+    | some bs =>
+      let xp' := s.xp.map fun xp => if xp.opened && xp.lineZero then { xp with rest := bs } else xp
+      ({ s with xfile := some bs, xexpect := none, xp := xp' }, s!"R ok len={bs.length}")
+    | none => (s, "bad-op")
+  | ["x", "render", style, decor, forest, h] =>
+    match parseForest forest, Render.Style.ofString style, decor.toNat?, parseHex h with
+    | some f, some st, some d, some bs =>
+      let text := Render.render st (Render.decorOf d) f
+      if text == bs then
+        let xp' := s.xp.map fun xp => if xp.opened && xp.lineZero then { xp with rest := bs } else xp
+        ({ s with xfile := some bs, xexpect := some (Render.norm f), xp := xp' }, s!"R ok len={bs.length}")
+      else (s, s!"R render-differs {toHex text}")
+    | _, _, _, _ => (s, "bad-op")
+  | ["x", "open"] =>
+    match s.xp with
+    | none => (s, "bad-op")
+    | some xp =>
+      match s.xfile with
+      | none => (s, "R refused")
+      | some bs => ({ s with xp := some { xp with opened := true, rest := bs, lineZero := true } }, "R ok")
+  | ["x", "reset"] =>
+    match s.xp with
+    | none => (s, "bad-op")
+    | some xp =>
+      if xp.lineZero then (s, "R ok")
+      else match xp.opened, s.xfile with
+        | true, some bs => ({ s with xp := some { xp with rest := bs, lineZero := true } }, "R ok")
+        | _, _ => (s, "R refused")
+  | ["x", "root", f] =>
+    match parseForest f with
+    | some f => ({ s with xtarget := f }, s!"R ok | C {fmtForest f}")
+    | none => (s, "bad-op")
+  | "x" :: "read" :: rest =>
+    if rest != [] && rest != ["log"] then (s, "bad-op") else
+    match s.xp with
+    | none => (s, "bad-op")
+    | some xp =>
+      let anyAlt := s!"ok sound=ok ; * || err sound=ok ; {fmtForest s.xtarget}"
+      if !xp.opened then
+        (s, s!"R err sound=ok | C {fmtForest s.xtarget} | I code=-1 curr={xp.curr} | S {anyAlt}")
+      else
+        let cfg : Cfg := { fmt := xp.fmt, sect := xp.sect, opt := xp.opt, eof := -2 }
+        let pr := parserRead xp.kind cfg xp.curr s.xtarget xp.rest
+        let r := pr.1
+        let tgt := pr.2
+        let verdict := if r.code < 0 then "err" else "ok"
+        -- the stream stands at the start of a text of the reference writer: exactly that forest
+        let alts := match s.xexpect, xp.lineZero with
+          | some f, true => s!"ok sound=ok ; {fmtForest f}"
+          | _, _ => anyAlt
+        let xp' := { xp with rest := r.src.rest, lineZero := false, curr := r.st.curr }
+        ({ s with xp := some xp', xtarget := tgt },
+          s!"R {verdict} sound=ok | C {fmtForest tgt} | I code={r.code} curr={r.st.curr} | S {alts}")
+  | ["x", "end"] => (({} : State), "R ok leaks=0")
   | _ => (s, "bad-op")
 
 def main (_args : List String) : IO Unit := do
